@@ -56,6 +56,18 @@ def single_worlds(tier):
                 w = mk_single(seed, 4, chosen, tuple(i % 2 for i in range(len(chosen))), 1, base=1234400)
                 w["ps_header_type"] = ps_type
                 yield w, dict(tag=tag), None
+    # single sample with --include-homozygous (trusted genotypes): homozygous variants inside separate read components
+    # (no master block for a single individual)
+    for k, chosen in ((4, ((0, 1), (2, 3))), (5, ((0, 1), (2, 3, 4))), (6, ((0, 1), (2, 3), (4, 5))), (4, ((0, 1), (1, 2, 3)))):
+        for homs in itertools.product((False, True), repeat=k):
+            if not any(homs) or all(homs):
+                continue
+            for tag in ("PS", "HP"):
+                w = mk_single(seed, k, chosen, tuple(i % 2 for i in range(len(chosen))), 1)
+                for i, h in enumerate(homs):
+                    if h:
+                        w["haps"]["S1"]["chrA"][i] = "hom1" if i % 2 else "hom0"
+                yield w, dict(tag=tag, include_homozygous=True), None
     # the first variant sits on the very first base of the contig (VCF POS 1, internal position 0)
     for k in (2, 3, 4):
         subs = subsets(k)
